@@ -78,7 +78,8 @@ def html(links=(), inline=(), meta=None, title='t'):
 
 
 class SiteServer:
-    """Serves `site[(host_header)][path] -> Page`; logs every request line."""
+    """Serves `site[(host_header)][path] -> Page` (a key 'host#port' takes precedence: the same host header
+    over another scheme); logs every request line."""
 
     def __init__(self, site, rng, loop, log, jitter=True, default=None):
         self.site = site
@@ -124,7 +125,7 @@ class SiteServer:
         self.log.append(entry)
         if self.on_request:
             self.on_request(entry)
-        pages = self.site.get(host) or self.site.get(host.split(':')[0]) or {}
+        pages = self.site.get('%s#%d' % (host, port)) or self.site.get(host) or self.site.get(host.split(':')[0]) or {}
         page = pages.get(target)
         if callable(page):
             page = page(entry)
